@@ -376,3 +376,20 @@ Proof.
     + eapply XiReach_spread; [left; reflexivity|exact Hdef|]. apply IHa. exact Hf.
     + apply xi_reach_tail. apply IHb. exact Hf.
 Qed.
+
+(* the statements of C18_all_fields / C18_root_fields *)
+Theorem xi_all_fields_spec d op : exists l seen',
+  XiDfs true (xd_frags d) [] (xo_sels op) l seen' /\
+  xi_all_fields d op = Some l /\ xi_dfs_fields_once true d (xo_sels op) = Some l.
+Proof.
+  destruct (xi_dfs_fields_once_spec true d (xo_sels op)) as (l & s & H & E).
+  exists l, s. split; [exact H|]. split; [exact (xi_iter_dfs true d (xo_sels op) l s H)|exact E].
+Qed.
+
+Theorem xi_root_fields_spec d op : exists l seen',
+  XiDfs false (xd_frags d) [] (xo_sels op) l seen' /\
+  xi_root_fields d op = Some l /\ xi_dfs_fields_once false d (xo_sels op) = Some l.
+Proof.
+  destruct (xi_dfs_fields_once_spec false d (xo_sels op)) as (l & s & H & E).
+  exists l, s. split; [exact H|]. split; [exact (xi_iter_dfs false d (xo_sels op) l s H)|exact E].
+Qed.
